@@ -286,4 +286,61 @@ theorem c10_sparse (ord : MapOrder) (hl : ord.Lawful) (env : MapEnv) (lr : List 
     GenSparseSketch.ssim_new lr hrep hnz
     (fun p hp => GenSparseSketch.sparse_routed_of_32 hl env _ (hr p hp)) x hx
 
+/-- … lowest-collapsing dense store with `n` bins (no condition on the indexes) -/
+theorem c10_collapsing_lowest (n : Nat) (env : MapEnv) (lr : List (Rat × Rat)) (hrep : RepOK lr)
+    (hnz : ∀ p ∈ lr, p.2 ≠ 0) (x : XSketch)
+    (hx : xaddAll env (XSketch.new (some env.id) (.low n)) (fins lr) = some x) :
+    C10Holds env (⟨Gen.Dense.NewCollapsingLowestDenseStore (n : Int)⟩ : GenLowSketch.GLS n)
+      ⟨Gen.Dense.NewCollapsingLowestDenseStore (n : Int)⟩ lr x :=
+  c10_transport (GenLowSketch.lowStoreSim n) env (.low n) GenLowSketch.lsim_new GenLowSketch.lsim_new lr hrep hnz
+    (fun _ _ => GenLowSketch.low_routed env _) x hx
+
+/-- … highest-collapsing dense store with `n` bins -/
+theorem c10_collapsing_highest (n : Nat) (env : MapEnv) (lr : List (Rat × Rat)) (hrep : RepOK lr)
+    (hnz : ∀ p ∈ lr, p.2 ≠ 0) (x : XSketch)
+    (hx : xaddAll env (XSketch.new (some env.id) (.high n)) (fins lr) = some x) :
+    C10Holds env (⟨Gen.Dense.NewCollapsingHighestDenseStore (n : Int)⟩ : GenHighSketch.GHS n)
+      ⟨Gen.Dense.NewCollapsingHighestDenseStore (n : Int)⟩ lr x :=
+  c10_transport (GenHighSketch.highStoreSim n) env (.high n) GenHighSketch.hsim_new GenHighSketch.hsim_new lr hrep
+    hnz (fun _ _ => GenHighSketch.high_routed env _) x hx
+
+/-! ### the hypotheses are satisfiable
+
+  C10's running example (values 3, −1, 5/2 with weights 2, 1, 4; `C10.exL_ok : RepOK C10.exL`) on the mapping
+  oracle `GenSketch.discEnv` (every value routed to index 0, indexable range `[1/1000, 1000]`): the model accepts
+  the history on every store kind. -/
+
+theorem exL_accepted_pag : (xaddAll discEnv (XSketch.new (some discEnv.id) .pag) (fins C10.exL)).isSome = true := by
+  decide +kernel
+
+theorem exL_accepted_sparse :
+    (xaddAll discEnv (XSketch.new (some discEnv.id) .sparse) (fins C10.exL)).isSome = true := by
+  decide +kernel
+
+theorem exL_accepted_dense :
+    (xaddAll discEnv (XSketch.new (some discEnv.id) .dense) (fins C10.exL)).isSome = true := by
+  decide +kernel
+
+theorem exL_nonzero : ∀ p ∈ C10.exL, p.2 ≠ 0 := by decide +kernel
+
+theorem exL_routed32 : ∀ p ∈ C10.exL, Routed32 discEnv (F64.fin p.1) := by
+  intro p _
+  exact ⟨fun _ => (by decide : PStore.Idx32 (0 : Int)), fun _ => (by decide : PStore.Idx32 (0 : Int))⟩
+
+/-- the paginated instance, met on the example: count 7, sum 15 -/
+theorem c10_paginated_example (grow : Int → Int → Int) :
+    let a := xrunAdds (newX discEnv (⟨Gen.Paginated.NewBufferedPaginatedStore⟩ : GPS grow)
+      ⟨Gen.Paginated.NewBufferedPaginatedStore⟩) (fins C10.exL)
+    a.2 = [GoErr.nil, GoErr.nil, GoErr.nil] ∧
+    DDSketchWithExactSummaryStatistics.GetCount a.1 = .fin 7 ∧
+    DDSketchWithExactSummaryStatistics.GetSum a.1 = .fin 15 := by
+  intro a
+  obtain ⟨x, hx⟩ := Option.isSome_iff_exists.mp exL_accepted_pag
+  obtain ⟨h1, _, h3, h4, _⟩ := c10_paginated grow discEnv C10.exL C10.exL_ok exL_nonzero exL_routed32 x hx
+  refine ⟨h1, ?_, ?_⟩
+  · show DDSketchWithExactSummaryStatistics.GetCount a.1 = _
+    rw [h3]; decide +kernel
+  · show DDSketchWithExactSummaryStatistics.GetSum a.1 = _
+    rw [h4]; decide +kernel
+
 end DDS.Props.C10GenStores
